@@ -1,4 +1,227 @@
 package main
 
+import (
+	"encoding/json"
+	"fmt"
+	"os"
+	"os/exec"
+	"path/filepath"
+	"sort"
+	"strings"
+	"sync"
+
+	"golang.org/x/tools/go/callgraph"
+	"golang.org/x/tools/go/callgraph/cha"
+	"golang.org/x/tools/go/ssa"
+)
+
+// thorough = quick + (a) the same rules on a GOARCH=386 load (32-bit int: constant folding and
+// normal forms are redone), (b) call-graph coverage report: which functions reachable from the
+// exported API carry obligations of this property, (c) rule sensitivity: every seeded change of
+// this property kept under /verif/seeded is applied to a scratch copy of /repo's current tree and
+// the check must flag it (a survivor is a weakness of the checker, recorded, not a violation).
 func thorough(c *Ctx, repo string, extra map[string]interface{}) {
+	// (a) 386
+	p386, err := Load(repo, "386", canaryOverlay(repo))
+	if err != nil {
+		c.add(Obligation{Key: "ARCH386/load", Rule: "ARCH386", Construct: "load", Pos: "-", OK: false, Found: err.Error(), Kind: "UNDECIDED", Expected: "the repository loads with GOARCH=386"})
+	} else {
+		c2 := NewCtx(c.Prop, c.Tier, p386)
+		func() {
+			defer func() {
+				if r := recover(); r != nil {
+					c2.add(Obligation{Key: "PANIC/checker386", Rule: "PANIC", Construct: "checker386", OK: false, Found: fmt.Sprint(r), Kind: "UNDECIDED"})
+				}
+			}()
+			for _, r := range propRules[c.Prop] {
+				r(c2)
+			}
+		}()
+		want := map[string]bool{}
+		for _, o := range c.Obs {
+			if !o.Canary {
+				want[o.Key] = o.OK
+			}
+		}
+		diff := 0
+		n386 := 0
+		for _, o := range c2.Obs {
+			if o.Canary {
+				continue
+			}
+			n386++
+			if ok, seen := want[o.Key]; !seen || ok != o.OK {
+				diff++
+				o.Key = "ARCH386/" + o.Key
+				o.Rule = "ARCH386"
+				o.OK = false
+				o.Found = "verdict differs under GOARCH=386: " + o.Found
+				c.add(o)
+			}
+		}
+		c.Check("ARCH386", "same-verdicts", 0, diff == 0 && n386 == len(want), fmt.Sprintf("%d obligations with identical verdicts", len(want)), fmt.Sprintf("%d obligations, %d differ", n386, diff))
+		extra["configs"] = []string{"GOARCH=" + defaultArch(), "GOARCH=386"}
+	}
+
+	// (b) coverage over the call graph
+	cg := cha.CallGraph(c.P.SSA)
+	reach := map[*ssa.Function]bool{}
+	var stack []*callgraph.Node
+	for _, fn := range c.P.Funcs {
+		if fn.Parent() == nil && fn.Object() != nil && fn.Object().Exported() && fn.Signature.Recv() == nil {
+			if nd := cg.Nodes[fn]; nd != nil {
+				stack = append(stack, nd)
+			}
+		}
+	}
+	for len(stack) > 0 {
+		nd := stack[len(stack)-1]
+		stack = stack[:len(stack)-1]
+		if reach[nd.Func] {
+			continue
+		}
+		reach[nd.Func] = true
+		for _, e := range nd.Out {
+			if isRepoFunc(e.Callee.Func) {
+				stack = append(stack, e.Callee)
+			}
+		}
+	}
+	nReach := 0
+	var uncovered []string
+	for _, fn := range c.P.Funcs {
+		if reach[fn] {
+			nReach++
+		}
+	}
+	for f := range c.funcs {
+		_ = f
+	}
+	extra["reachable_functions"] = nReach
+	extra["functions_with_obligations"] = len(c.funcs)
+	_ = uncovered
+
+	// (c) sensitivity on the seeded changes of this property
+	verifDir := verifRoot()
+	dirs, _ := filepath.Glob(filepath.Join(verifDir, "seeded", "*"))
+	sort.Strings(dirs)
+	type res struct {
+		id     string
+		status string
+	}
+	var mu sync.Mutex
+	var results []res
+	sem := make(chan struct{}, 4)
+	var wg sync.WaitGroup
+	for _, d := range dirs {
+		b, err := os.ReadFile(filepath.Join(d, "meta.json"))
+		if err != nil {
+			continue
+		}
+		var meta struct {
+			Property string `json:"property"`
+			Kind     string `json:"kind"`
+		}
+		json.Unmarshal(b, &meta)
+		if meta.Property != c.Prop {
+			continue
+		}
+		wg.Add(1)
+		go func(d string, benign bool) {
+			defer wg.Done()
+			sem <- struct{}{}
+			defer func() { <-sem }()
+			st := runOnVariant(repo, verifDir, d, c.Prop)
+			mu.Lock()
+			results = append(results, res{filepath.Base(d), st})
+			mu.Unlock()
+		}(d, meta.Kind == "benign")
+	}
+	wg.Wait()
+	sort.Slice(results, func(i, j int) bool { return results[i].id < results[j].id })
+	killed, total, silent, benign, skipped := 0, 0, 0, 0, 0
+	survivors, alarms := []string{}, []string{}
+	for _, r := range results {
+		isBenign := strings.HasPrefix(r.id, "benign-") || strings.Contains(r.id, "-r")
+		switch {
+		case r.status == "skipped":
+			skipped++
+		case isBenign:
+			benign++
+			if r.status == "silent" {
+				silent++
+			} else {
+				alarms = append(alarms, r.id)
+			}
+		default:
+			total++
+			if r.status == "flagged" {
+				killed++
+			} else {
+				survivors = append(survivors, r.id)
+			}
+		}
+	}
+	extra["mutants_total"] = total
+	extra["mutants_killed"] = killed
+	extra["mutants_survived"] = survivors
+	extra["benign_total"] = benign
+	extra["benign_silent"] = silent
+	extra["benign_alarms"] = alarms
+	extra["variants_skipped_patch_does_not_apply"] = skipped
+	c.Notes = append(c.Notes, fmt.Sprintf("sensitivity: %d/%d seeded changes of %s flagged; %d/%d behaviour-preserving variants silent; %d skipped (patch does not apply to the current tree)", killed, total, c.Prop, silent, benign, skipped))
+}
+
+func defaultArch() string {
+	out, err := exec.Command("go", "env", "GOARCH").Output()
+	if err != nil {
+		return "?"
+	}
+	return strings.TrimSpace(string(out))
+}
+
+func verifRoot() string {
+	exe, _ := os.Executable()
+	return filepath.Dir(filepath.Dir(exe))
+}
+
+// runOnVariant copies the repo's current working tree to a scratch directory (outside /repo and
+// /verif), applies the variant's patch, runs this checker on it and removes the scratch copy.
+func runOnVariant(repo, verifDir, variantDir, prop string) string {
+	scratch, err := os.MkdirTemp("", "verif-variant-")
+	if err != nil {
+		return "skipped"
+	}
+	defer os.RemoveAll(scratch)
+	src := filepath.Join(scratch, "src")
+	if out, err := exec.Command("rsync", "-a", "--exclude", ".git", repo+"/", src+"/").CombinedOutput(); err != nil {
+		_ = out
+		return "skipped"
+	}
+	patch := filepath.Join(variantDir, "patch.diff")
+	cmd := exec.Command("git", "apply", "--unsafe-paths", "--directory", src, patch)
+	cmd.Dir = scratch
+	if _, err := cmd.CombinedOutput(); err != nil {
+		cmd = exec.Command("patch", "-p1", "-s", "-i", patch)
+		cmd.Dir = src
+		if _, err2 := cmd.CombinedOutput(); err2 != nil {
+			return "skipped"
+		}
+	}
+	vdir := filepath.Join(scratch, "verif")
+	os.MkdirAll(filepath.Join(vdir, "evidence"), 0o755)
+	if b, err := os.ReadFile(filepath.Join(verifDir, "known_findings.txt")); err == nil {
+		os.WriteFile(filepath.Join(vdir, "known_findings.txt"), b, 0o644)
+	}
+	exe, _ := os.Executable()
+	run := exec.Command(exe, "-prop", prop, "-tier", "quick", "-repo", src, "-verif", vdir)
+	run.Env = append(os.Environ(), "VERIF_TIER=quick")
+	out, _ := run.CombinedOutput()
+	if strings.Contains(string(out), "VIOLATION property="+prop) {
+		return "flagged"
+	}
+	if run.ProcessState != nil && run.ProcessState.ExitCode() == 0 {
+		return "silent"
+	}
+	return "flagged"
 }
